@@ -478,4 +478,90 @@ def grpcStallExport (cfg : Config) (w : StopWiring) (b : GrpcBuild) (bs : List D
       none none (some (0, 0)))
   else none
 
+/-! ### request construction and re-send (`newRequest`, `bodyReader`, `request.reset`; identical in the three HTTP packages)
+
+Memory is modelled explicitly, because what can go wrong here is ALIASING: the body a retry re-sends is whatever the
+backing array captured by the `bodyReader` closure holds at that moment. `Mem` = a bump allocator: `alloc` returns
+an address that was never handed out before (`var b bytes.Buffer` / `proto.Marshal` allocate fresh storage); the
+package-level `gzPool` holds `*gzip.Writer`s only — they are `Reset` onto the request's own buffer and own no storage a
+request keeps a reference to. `gz` (what `gzip.Writer` produces for a payload) is a parameter. -/
+
+structure Mem where
+  next : Nat
+  cells : List (Nat × Bytes)
+deriving Repr
+
+def Mem.read (m : Mem) (a : Nat) : Bytes :=
+  match m.cells.find? (fun c => c.1 == a) with
+  | some c => c.2
+  | none => []
+
+def Mem.alloc (m : Mem) (v : Bytes) : Mem × Nat :=
+  ({ next := m.next + 1, cells := (m.next, v) :: m.cells }, m.next)
+
+/-- every cell lives below the allocation pointer -/
+def Mem.wf (m : Mem) : Prop := ∀ c ∈ m.cells, c.1 < m.next
+
+/-- what `newRequest` fixes once per export -/
+structure Request where
+  /-- `r.ContentLength` (−1: "not used") -/
+  contentLength : Int
+  /-- `Content-Encoding: gzip` set -/
+  gzipHeader : Bool
+  /-- the backing array the `bodyReader` closure captured -/
+  body : Nat
+deriving DecidableEq, Repr
+
+/-- `newRequest(body)`: `NoCompression` — `ContentLength = len(body)`, `bodyReader(body)` over the marshalled payload
+(itself a fresh allocation of `proto.Marshal`); `GzipCompression` — `ContentLength = -1`, the header, a pooled writer
+reset onto a FRESH buffer, `bodyReader(b.Bytes())` -/
+def newRequest (gz : Bytes → Bytes) (compress : Bool) (m : Mem) (payload : Bytes) : Mem × Request :=
+  if compress then
+    let (m', a) := m.alloc (gz payload)
+    (m', { contentLength := -1, gzipHeader := true, body := a })
+  else
+    let (m', a) := m.alloc payload
+    (m', { contentLength := payload.length, gzipHeader := false, body := a })
+
+/-- `request.reset(ctx)` + `http.Client.Do`: a NEW reader positioned at 0 over the captured array, read to its end -/
+def sendAttempt (m : Mem) (r : Request) : Bytes := m.read r.body
+
+/-- whatever other exports (any exporter sharing the package-level pool) do between two attempts: each builds its own
+request -/
+def otherExports (gz : Bytes → Bytes) (m : Mem) : List (Bool × Bytes) → Mem
+  | [] => m
+  | (c, p) :: rest => otherExports gz (newRequest gz c m p).1 rest
+
+/-- the bytes of attempts `1, 2, …` of one export when `between[i]` are the foreign exports built between attempt `i+1`
+and attempt `i+2` -/
+def attemptBodies (gz : Bytes → Bytes) (m : Mem) (r : Request) : List (List (Bool × Bytes)) → List Bytes
+  | [] => [sendAttempt m r]
+  | ops :: rest => sendAttempt m r :: attemptBodies gz (otherExports gz m ops) r rest
+
+/-! ### partial success → error handler (all three signals, HTTP and gRPC) -/
+
+/-- `if n != 0 || msg != "" { otel.Handle(PartialSuccessError) }` for `RejectedSpans` / `RejectedDataPoints` /
+`RejectedLogRecords` + `ErrorMessage`; `none` = the response has no `partial_success` field -/
+def partialReported (ps : Option (Int × Bool)) : Bool :=
+  match ps with
+  | none => false
+  | some (n, msgNonEmpty) => n != 0 || msgNonEmpty
+
+/-- number of `otel.Handle(partial success)` calls of one export: one per attempt made whose outcome was `ok true` -/
+def handlerCalls (atts : List Attempt) (r : Run) : Nat :=
+  ((atts.take r.attempts).filter (fun a => a.out == .ok true)).length
+
+/-! ### Stop/Shutdown wiring, exporter by exporter (as read in the six packages) -/
+
+inductive Signal where
+  | trace | metric | log
+deriving DecidableEq, Repr
+
+def stopWiringOf (sig : Signal) (grpc : Bool) : StopWiring :=
+  match sig, grpc with
+  | .trace, _ => .cancelsExport        -- otlptracehttp: stopCh → contextWithStop; otlptracegrpc: stopCtx
+  | .metric, _ => .waitsForExport      -- Exporter.Shutdown takes clientMu, which Export holds across UploadMetrics
+  | .log, true => .waitsForExport      -- otlploggrpc: same shape
+  | .log, false => .detaches           -- otlploghttp: Shutdown swaps in the no-op client, returns nil
+
 end Otel.C14
